@@ -202,7 +202,7 @@ func kvTreeJobs(prop string, q bool, add func(kind, id string, w int, s map[stri
 		m, n int
 	}
 	trees := []tb{
-		{"rbt", 0, pick(12, 16)}, {"avl", 0, pick(13, 17)}, {"treemap", 0, pick(10, 13)}, {"treeset", 0, pick(10, 13)}, 
+		{"rbt", 0, pick(12, 16)}, {"avl", 0, pick(13, 17)}, {"treemap", 0, pick(10, 13)}, {"treeset", 0, pick(10, 13)},
 		{"btree", 3, pick(18, 24)}, {"btree", 4, pick(15, 23)}, {"btree", 5, pick(21, 24)}, {"btree", 6, pick(24, 28)},
 	}
 	if !q {
